@@ -87,6 +87,20 @@ E('C40', 'Every expression of depth <= 2/3 of the supported grammar (rendered by
 E('C41', 'Tables of <= 3 rows x 2 Any columns over hashable and unhashable values x 1607 queries x '
          'formulas/private flags on a live engine; rows and column kinds vs an independent model.')
 
+E('C20', 'relabeling.prepare_inserts on every sorted list of <= 4 positions x every batch of <= 3 '
+         'requests over an adversarial float alphabet, plus insertion chains (60/400 steps) and insertion '
+         'trees from adjacent-float clusters; engine-level distinctness of position columns is a monitor '
+         'of the history explorer (see C20 in mc/monitors2.Positions, run inside this check).')
+E('C21', 'pick_col_ident/pick_table_ident/pick_col_ident_list on every string of length <= 3/4 over 9 '
+         'characters, exotic Unicode, all keywords, adaptive avoid-set trees and lists of <= 3 names.')
+E('C24', 'Catalogue of 132 adversarial values x container wrappers x 4 routes driven through the real '
+         'main.run(Sandbox) transport: every reply frame is DATA and unmarshals, encode(decode(x)) == x.')
+E('C25', 'Starting versions 0..47 x 3 document worlds x single-cell deviations (pairs in thorough) of '
+         'every Text cell migrations parse; actions applied by the independent interpreter must reach '
+         'the current schema.')
+E('C37', 'Texts of length <= 4/5 over {a,b,newline} x all non-overlapping patch sets x 5 builder '
+         'compositions x every output sub-range, vs an independent forward-map reference.')
+
 PLANNED = {}
 
 
